@@ -50,8 +50,8 @@ def key_of(e, clause):
     if "mustErr.zeroPivot.nan" in clause:
         return "cholesky: indefinite A whose exact elimination meets a zero pivot first -> Ok with NaN factors (%s)" % call
     nullity = len(e["cert"]["N"][0]) if e["cert"]["N"] else 0
-    if e["w"] == "f32" and nullity >= 3 and call in ("SVD", "Solve.svd"):
-        return "svd: f32 exactly rank-deficient matrix with nullity >= 3, any scale (%s)" % call
+    if e["w"] == "f32" and nullity >= 4 and call in ("SVD", "Solve.svd"):
+        return "svd: f32 exactly rank-deficient matrix with nullity >= 4, any scale (%s)" % call
     if e["se"] == -40 and call in ("QR", "Solve.qr", "SVD", "Solve.svd"):
         if e["w"] == "f32":
             return "absolute T::epsilon() threshold: %s of an f32 matrix scaled by 2^-40" % call
